@@ -201,6 +201,11 @@ func run(c *core.Ctx) {
 	for t := range tags {
 		c.Inc("model_tag_" + t)
 	}
+	if m.composite() {
+		c.Inc("model_key_composite(int64,string)")
+	} else {
+		c.Inc("model_key_" + m.pk.k.name)
+	}
 	nops := 12
 	for i := 0; i < nops; i++ {
 		kind := core.Pick(r, opKinds)
@@ -344,21 +349,22 @@ func p0keys(m *model) []string {
 var Engine = &core.Engine{
 	ID:    "C10",
 	Level: "exploration",
-	Rule: "per case one model type built with reflect.StructOf (key int64 / uint / string; 3..7 fields of 20 Go kinds incl. pointers and sql.Null*, custom column names, one random permission tag each out of <-:create, <-:update, <-:false, <-, ->, ->;<-:create, ->;<-:update, ->:false;<-:create, ->:false;<-, ->:false, -, -:migration, -:all; 0..3 tracked time fields: UpdatedAt/CreatedAt by name, autoUpdateTime (time, seconds, milli, nano), autoCreateTime) over a table created with raw SQL holding 3..6 rows of unique sentinels; 12 writes per case, each on a re-seeded table: " +
-		"Create(struct | slice | []*T | map | []map), CreateInBatches, upsert (DoUpdates AssignmentColumns / Assignments, UpdateAll, DoNothing; conflicting and new keys mixed), Save (existing key, new key, zero key, slice, under a Where), Updates(struct by value/pointer, value = model), Updates(map), Update, UpdateColumn, UpdateColumns(struct | map) x Select/Omit (none, names, '*', '*'+Omit, names+Omit, Omit('*'); field-name and column spelling; string and []string form) x values zero / non-zero / pointer-to-zero / nil / gorm.Expr x targets Model(key), Where (8 forms, 1..2), Model(key)+Where, Model(slice of keys), missing key; " +
+	Rule: "per case one model type built with reflect.StructOf (key int64 / uint / string / composite (int64,string); 3..7 fields of 20 Go kinds incl. pointers and sql.Null*, custom column names, one random permission tag each out of <-:create, <-:update, <-:false, <-, ->, ->;<-:create, ->;<-:update, ->:false;<-:create, ->:false;<-, ->:false, -, -:migration, -:all; 0..3 tracked time fields: UpdatedAt/CreatedAt by name, autoUpdateTime (time, seconds, milli, nano), autoCreateTime) over a table created with raw SQL holding 3..6 rows of unique sentinels; 12 writes per case, each on a re-seeded table: " +
+		"Create(struct | slice | []*T | map | []map), CreateInBatches, upsert (DoUpdates AssignmentColumns / Assignments, UpdateAll, DoNothing; conflicting and new keys mixed), Save (existing key, new key, zero key, slice, under a Where), Updates(struct by value/pointer, value = model), Updates(map), Update, UpdateColumn, UpdateColumns(struct | map) x Select/Omit (none, names, '*', '*'+Omit, names+Omit, Omit('*'); field-name and column spelling; string and []string form) x values zero / non-zero / pointer-to-zero / nil / gorm.Expr x targets Model(key), Where (8 forms, 1..2), Model(key)+Where, Model(slice of keys)[+Where], missing key, value = model [+Where]; " +
 		"distinct = (finisher, target form, Select/Omit mode and spelling, permission tags denied, value forms, which check classes occurred, key kind); non-trivial = at least one cell had to be written or refreshed, or a given value had to be kept out by a permission tag / Select / Omit",
 	Assumptions: []string{
-		"the table is created with raw SQL (the migrator is not under test); ignored fields (`-`, `-:all`) get a ghost column so that a write to them is visible",
+		"the table is created with raw SQL (the migrator is not under test) and every chain starts with db.Table(name) (reflect.StructOf types have no name); ignored fields (`-`, `-:all`) get a ghost column so that a write to them is visible",
 		"`->:false` without a `<-` tag: the statement does not fix its write permission, the column is not checked in addressed rows (rows outside the target are)",
 		"tracked time fields never carry a permission tag, and hook-running map updates / Update never name a tracked update-time field (refresh versus given value is not fixed by the statement)",
 		"on inserts (Create, batch, map, upsert, Save of a new key) tracked time columns are not checked: the statement only fixes their refresh on updates; on upsert conflicts they are not checked either, except Save(slice) which must refresh tracked update-time fields",
 		"upsert conflict rows: a column whose field may be updated but not created is not checked (excluded.<col> of a column the INSERT may not write); unlisted columns must stay, listed ones must take the new value unless the field denies update",
-		"Select('*') with a struct value that is not the model writes the key column as well: such values carry the key of the single addressed row; otherwise struct values carry a zero key or the key of the addressed row",
-		"map keys of ignored fields are spelled by field name only (the column spelling of a field without column is a plain unknown column)",
-		"Omit('*') only on Updates/Update/UpdateColumn(s); Save of a new key and Save under a condition only with Omit; upsert with explicit DoUpdates without Select/Omit",
-		"batches carry either only zero keys or only explicit keys; the new keys are then max+1.. (SQLite rowid) resp. the given ones",
+		"Select('*') with a struct value that is not the model writes the key column as well: such values carry the key of the single addressed row; otherwise struct values carry a zero key or the key of the addressed row; key fields are never named in Select/Omit of an update",
+		"map keys of ignored fields are spelled by field name only (the column spelling of a field without column is a plain unknown column), and map creates never name an ignored field (gorm renders an INSERT with an empty column name, a plain SQL error that writes nothing)",
+		"Create of several maps passes &[]map[string]interface{} (the non-pointer form fails in Scan of the RETURNING row on this dialect, which is not a write-set matter); every generated INSERT has at least one column (DEFAULT VALUES inserts are outside the statement)",
+		"Omit('*') only on Updates/Update/UpdateColumn(s); Save of a new key and Save under a condition only with Omit; upsert with explicit DoUpdates without Select/Omit; UpdateAll only with Omit",
+		"batches carry either only zero keys or only explicit keys; the new keys are then max+1.. (SQLite rowid) resp. the given ones; composite keys are always given completely (both parts non-zero)",
 		"conditions are evaluated by SQLite itself (raw SELECT) to get the target set; their rendering is C02's subject",
-		"the value of Updates(struct) has the model's own type (different-schema values are not generated)",
+		"the value of Updates(struct) has the model's own type (different-schema values are not generated); Model(slice) only with non-zero keys",
 	},
 	Cases: func(tier string) int {
 		if tier == "thorough" {
